@@ -88,8 +88,10 @@ Spec == Init /\ [][Next]_vars
 DayView(d) == (IF live[d] # "none" THEN {live[d]} ELSE {})
               \cup (IF backup[d] = "old" THEN {"old"} ELSE {})
               \cup (IF backup[d] = "partial" THEN {"damaged"} ELSE {})
-\* names listed as interfaces besides the real ones
-BogusInterfaces == IF stageRoot THEN {"stage-root"} ELSE {}
+\* names listed as interfaces besides the real ones.  StageListed = TRUE is the code before fix "merge
+\* staging directory is not an interface" (info.GetInterfaces listed every directory of the database root)
+StageListed == FALSE
+BogusInterfaces == IF stageRoot /\ StageListed THEN {"stage-root"} ELSE {}
 
 Pre(d) == IF HasOld[d] THEN {"old"} ELSE {}
 
@@ -103,7 +105,7 @@ NoBogusInterface == pc \in {"crashed"} => BogusInterfaces = {}
 \*   KF-merge-backup-is-a-day : after RenameStagedIn and until the backup is gone both directories
 \*                              parse as the same day (double counting / damaged day / later merge
 \*                              refuses with "duplicate day")
-\*   KF-merge-stage-root-is-an-interface : a left-over stage root is listed as an interface
+\*   (KF-merge-stage-root-is-an-interface, repaired: a left-over stage root was listed as an interface)
 KF_BackupIsADay(d) == live[d] = "new" /\ backup[d] # "none"
 EitherOrKF == \A d \in DaysIdx : DayView(d) \in {Pre(d), {"new"}} \/ KF_BackupIsADay(d)
 =============================================================================
